@@ -34,10 +34,10 @@ VERIF_DIR = os.path.dirname(os.path.dirname(os.path.abspath(__file__)))
 REPO_DIR = os.environ.get("VERIF_REPO", "/repo")
 # evidence and replay files of runs pointed at a scratch copy (sensitivity
 # self-tests) never land in /verif
-OUT_DIR = VERIF_DIR if os.path.realpath(REPO_DIR) == "/repo" else os.environ.get(
-    "VERIF_OUT", "/dev/shm/verif-scratch-out")
-
-
+OUT_DIR = os.environ.get("VERIF_OUT") or (
+    VERIF_DIR if os.path.realpath(REPO_DIR) == "/repo" else "/dev/shm/verif-scratch-out")
+# development aid (self-tests only): scale the number of runs per stratum
+SCALE = float(os.environ.get("VERIF_SCALE", "1") or 1)
 CENSUS = os.environ.get("VERIF_CENSUS") == "1"   # development aid: do not stop at findings
 
 # --------------------------------------------------------------------------
